@@ -88,7 +88,8 @@ MANIFEST = {
              "monotonicity in the query, spacing B+-2C, no skipped index, distance to the query.  Perihelion/aphelion finders "
              "(7 planets): closed form with the index rules, the mean-instant quadratic and the interpolation window (VSOP87 "
              "positions and Interpolation.minmax abstracted), Spec/OrbitFinder.v gives alternation, spacing and distance to "
-             "the query; passage_nodes = passage_nodes_elliptic on the mean elements and the perihelion passage (C11 has its closed "
+             "the query; in the thorough tier the Epoch(x) hypothesis of all 35 closed forms is discharged with property C02's "
+             "constructor theorem (T13_*_exact); passage_nodes = passage_nodes_elliptic on the mean elements and the perihelion passage (C11 has its closed "
              "form).  That the instant is the VSOP87 event, node-passage order/accuracy, Epoch.year monotonicity and binary64 rounding "
              "are searched on the implementation."),
     "technique": "symbolic evaluation of the generated model in the ideal instance (pyrun, call-by-value) + interval "
@@ -113,7 +114,7 @@ CLAUSES = {
     "no event skipped or repeated (index non-decreasing, onto, every intermediate index taken)": "proved [spec, all reals]",
     "result within B/2 + D + |c0| + C of a query within D of 365.2425 y + 1721060": "proved [spec]; D <= 20 for y = Epoch.year searched",
     "Epoch.year non-decreasing in the JDE (so monotone in the query EPOCH)": "unproved (searched): C16's clause; dense scan incl. Julian century leap days",
-    "Epoch(x) stores x (JDE -> date -> JDE round trip)": "unproved (searched): C02's clause; correspondence + |result - closed form| in the search",
+    "Epoch(x) stores x (JDE -> date -> JDE round trip)": "proved in the thorough tier [ideal]: property C02's Epoch_ctor_exact_ideal (all reals -0.5 <= x < 5399999.5) is imported and every finder theorem is re-proved without the Epoch(x) hypothesis (T13_<Planet>_<finder>_exact for the 28 periodic-term finders, T13_<Planet>_perihelion_aphelion_exact for 7 planets; the instants handed to Epoch() are shown to lie in that range for years -2000..4000); quick tier: hypothesis Epoch_of.  Remaining hypotheses: the value of Epoch.year (and for perihelion/aphelion the VSOP87 positions, Interpolation.minmax and its in-window result)",
     "the returned instant IS the event per the library's VSOP87 (longitude difference 0/180, max elongation = reported angle, stationary longitude, extremal radius, zero latitude)": "unproved (searched): two 1000-term series; oracle with the property's tolerances (1 d Mercury-Mars incl. perihelion/aphelion, 2 d beyond); reported elongation within 0.05 deg of the geometric elongation = what one day of timing error amounts to for Mercury (0.02-0.06 deg; Venus 0.004 deg is below the aberration/light-time floor of the comparison)",
     "perihelion_aphelion (7 planets): result = Epoch(minmax of the 3-point interpolation of R at m-h, m, m+h), m = J0 + k(P - k c) [+ Earth's correction sum], k = round(a(y-y0)) (perihelion) / round(a(y-y0)+1/2)-1/2 (aphelion), every constant; TypeError for a non-Epoch scalar":
         "proved [ideal; Epoch.year, Epoch(x), <Planet>.geometric_heliocentric_position (VSOP87), Interpolation() and minmax() (assumed not to raise) as hypotheses]",
@@ -128,11 +129,18 @@ CLAUSES = {
 
 
 def proof_files(tier):
-    return (["C13_angle.v", "C13_tac.v", "C13_defs.v"]
-            + ["C13_f_%s.v" % k.replace(".", "_") for k in sorted(_FT)]
-            + ["C13_main.v"] + ["C13_s_%s.v" % p for p in PERIODIC]
-            + ["C13_tac2.v", "C13_pdefs.v"] + ["C13_p_%s.v" % p for p in ORBITAL] + ["C13_s_peri.v", "C13_nodes.v", "C13_s_nodes.v"]
-            + ["C13.v"])
+    quick = (["C13_angle.v", "C13_tac.v", "C13_defs.v"]
+             + ["C13_f_%s.v" % k.replace(".", "_") for k in sorted(_FT)]
+             + ["C13_main.v"] + ["C13_s_%s.v" % p for p in PERIODIC]
+             + ["C13_tac2.v", "C13_pdefs.v"] + ["C13_p_%s.v" % p for p in ORBITAL] + ["C13_s_peri.v", "C13_nodes.v", "C13_s_nodes.v"])
+    if tier == "quick":
+        return quick + ["C13.v"]
+    # thorough: the same finder theorems with Epoch(x) = the Epoch holding x (property C02's Epoch_ctor_exact_ideal, 5-6 min
+    # + 16 shards per build directory) instead of a hypothesis: T13_*_exact obligations, not listed in THEOREMS
+    c02 = ["../C02/C02_ctor_spec.v"] + ["../C02/C02_ctor_rt_%02d.v" % k for k in range(16)] + ["../C02/C02_ctor_ideal.v"]
+    exact = (["C13_x_defs.v", "C13_xp_defs.v"] + ["C13_x_%s.v" % k.replace(".", "_") for k in sorted(_FT)]
+             + ["C13_xp_%s.v" % p for p in ORBITAL] + ["C13_sx_%s.v" % p for p in list(PERIODIC) + ["Earth"]])
+    return quick + c02 + exact + ["C13.v"]
 
 
 # ---------------------------------------------------------------------------------------------
